@@ -182,6 +182,106 @@ theorem tri_face_inside (A B C s t : K) (hA : 0 < A) (hC : 0 < C) (hD : 0 < A * 
     · exact fun ⟨x, y, z⟩ => hac ⟨by linarith, by linarith, by linarith⟩
   exact ⟨h2, h1, by linarith⟩
 
+/-- interior point, Gram coordinates: if the foot of `p` on the line `ac` falls before `a` (`ac·ap < 0`) then the line `ab`
+is strictly nearer than the line `ac` (`t²C < s²A`, i.e. `t²D/A < s²D/C`). -/
+theorem tri_M (A B C s t : K) (hC : 0 < C) (hD : 0 < A * C - B * B) (hs : 0 ≤ s) (ht : 0 ≤ t)
+    (h : s * B + t * C < 0) : t * t * C < s * s * A := by
+  have h1 : 0 < -(s * B) - t * C := by linarith
+  have h2 : 0 < -(s * B) + t * C := by nlinarith [mul_nonneg ht hC.le]
+  have h3 := mul_pos h1 h2
+  have h4 : 0 ≤ s * s * (A * C - B * B) := mul_nonneg (mul_self_nonneg s) hD.le
+  have h5 : 0 < C * (s * s * A - t * t * C) := by nlinarith
+  by_contra hcon; push Not at hcon
+  have := mul_nonneg hC.le (sub_nonneg.2 hcon)
+  nlinarith
+
+/-- comparison of two quantities given as `p·D/X` and `q·D/Y` -/
+theorem tri_cmp (D x y X Y p q : K) (hD : 0 < D) (hX : 0 < X) (hY : 0 < Y) (ex : x * X = p * D) (ey : y * Y = q * D) :
+    x < y ↔ p * Y < q * X := by
+  have key : (y - x) * (X * Y) = D * (q * X - p * Y) := by linear_combination X * ey - Y * ex
+  constructor
+  · intro h
+    have h1 := mul_pos (sub_pos.2 h) (mul_pos hX hY)
+    rw [key] at h1
+    have := (mul_pos_iff_of_pos_left hD).mp h1
+    linarith
+  · intro h
+    have h1 : 0 < D * (q * X - p * Y) := mul_pos hD (by linarith)
+    rw [← key] at h1
+    have := (mul_pos_iff_of_pos_right (mul_pos hX hY)).mp h1
+    linarith
+
+set_option maxHeartbeats 800000 in
+/-- non-solid interior tail of `point_triangle`, in Gram coordinates: the selected edge has its foot inside the edge, and the
+three line distances are `t²D/A`, `s²D/C`, `(1-s-t)²D/|bc|²`. -/
+theorem tri_hollow_abs (A B C s t v w u dab dac dbc : K) (hA : 0 < A) (hC : 0 < C) (hD : 0 < A * C - B * B)
+    (hs : 0 ≤ s) (ht : 0 ≤ t) (hst : s + t ≤ 1)
+    (hv : v * A = s * A + t * B) (hw : w * C = s * B + t * C)
+    (hu : u * (A - 2 * B + C) = (s * B + t * C - B) - (s * A + t * B - A))
+    (hdab : dab = (s * s * A + 2 * s * t * B + t * t * C) - A * v * v)
+    (hdac : dac = (s * s * A + 2 * s * t * B + t * t * C) - C * w * w)
+    (hdbc : dbc = ((s - 1) * (s - 1) * A + 2 * (s - 1) * t * B + t * t * C) - (A - 2 * B + C) * u * u) :
+    0 < A - 2 * B + C ∧
+    dab * A = t * t * (A * C - B * B) ∧ dac * C = s * s * (A * C - B * B) ∧
+    dbc * (A - 2 * B + C) = (1 - s - t) * (1 - s - t) * (A * C - B * B) ∧
+    (dab < dac → dab < dbc → 0 ≤ v ∧ v ≤ 1) ∧
+    (¬ dab < dac → dac < dbc → 0 ≤ w ∧ w ≤ 1) ∧
+    (dbc ≤ dab → dbc ≤ dac → 0 ≤ u ∧ u ≤ 1) := by
+  have hC' : 0 < A - 2 * B + C := by
+    by_contra h; push Not at h
+    nlinarith [mul_self_nonneg (A - B), mul_nonneg hA.le (neg_nonneg.2 h)]
+  have e1 : dab * A = t * t * (A * C - B * B) := by
+    rw [hdab]; linear_combination (-(v * A) - (s * A + t * B)) * hv
+  have e2 : dac * C = s * s * (A * C - B * B) := by
+    rw [hdac]; linear_combination (-(w * C) - (s * B + t * C)) * hw
+  have e3 : dbc * (A - 2 * B + C) = (1 - s - t) * (1 - s - t) * (A * C - B * B) := by
+    rw [hdbc]; linear_combination (-(u * (A - 2 * B + C)) - ((s * B + t * C - B) - (s * A + t * B - A))) * hu
+  have hD' : 0 < A * (A - 2 * B + C) - (A - B) * (A - B) := by
+    have : A * (A - 2 * B + C) - (A - B) * (A - B) = A * C - B * B := by ring
+    rw [this]; exact hD
+  have hD'' : 0 < (A - 2 * B + C) * C - (C - B) * (C - B) := by
+    have : (A - 2 * B + C) * C - (C - B) * (C - B) = A * C - B * B := by ring
+    rw [this]; exact hD
+  have hs' : 0 ≤ 1 - s - t := by linarith
+  refine ⟨hC', e1, e2, e3, ?_, ?_, ?_⟩
+  · intro h1 h2
+    constructor
+    · -- v < 0 would make `ac` strictly nearer than `ab`
+      by_contra hc; push Not at hc
+      have hP : t * B + s * A < 0 := by nlinarith
+      have := tri_M C B A t s hA (by linarith) ht hs hP
+      have h1' := (tri_cmp _ _ _ _ _ _ _ hD hA hC e1 e2).mp h1
+      linarith
+    · by_contra hc; push Not at hc
+      have hP : (1 - s - t) * A + t * (A - B) < 0 := by nlinarith
+      have hM := tri_M (A - 2 * B + C) (A - B) A t (1 - s - t) hA (by linarith) ht hs' (by linarith)
+      have h2' := (tri_cmp _ _ _ _ _ _ _ hD hA hC' e1 e3).mp h2
+      linarith
+  · intro h1 h2
+    constructor
+    · by_contra hc; push Not at hc
+      have hP : s * B + t * C < 0 := by nlinarith
+      have hM := tri_M A B C s t hC hD hs ht hP
+      exact h1 ((tri_cmp _ _ _ _ _ _ _ hD hA hC e1 e2).mpr (by linarith))
+    · by_contra hc; push Not at hc
+      have hP : (1 - s - t) * C + s * (C - B) < 0 := by nlinarith
+      have hM := tri_M (A - 2 * B + C) (C - B) C s (1 - s - t) hC (by linarith) hs hs' (by linarith)
+      have h2' := (tri_cmp _ _ _ _ _ _ _ hD hC hC' e2 e3).mp h2
+      linarith
+  · intro h1 h2
+    constructor
+    · -- u < 0: `bc·bp < 0`, then `ba` is strictly nearer than `bc`
+      by_contra hc; push Not at hc
+      have hP : (1 - s - t) * (A - B) + t * (A - 2 * B + C) < 0 := by nlinarith
+      have hM := tri_M A (A - B) (A - 2 * B + C) (1 - s - t) t hC' hD' hs' ht hP
+      have := (tri_cmp _ _ _ _ _ _ _ hD hA hC' e1 e3).mpr (by linarith)
+      linarith
+    · by_contra hc; push Not at hc
+      have hP : (1 - s - t) * (C - B) + s * (A - 2 * B + C) < 0 := by nlinarith
+      have hM := tri_M C (C - B) (A - 2 * B + C) (1 - s - t) s hC' (by linarith) hs' hs hP
+      have := (tri_cmp _ _ _ _ _ _ _ hD hC hC' e2 e3).mpr (by linarith)
+      linarith
+
 /-! ## Isometries: a unit quaternion / unit complex acts as a distance-preserving bijection -/
 
 /-- squared distance (the specification's metric) -/
